@@ -73,6 +73,18 @@ def check_query(run, i, ev, why):
     ffull = fresh.query(10**9, t)
     mon.check(sorted((bytes(a), int(c)) for a, c in ffull) == sorted((bytes(a), int(c)) for a, c in full),
               "unbounded-answer==unbounded-answer-of-freshly-loaded-copy", fresh=H.hh_pairs(ffull)[:8], **det)
+    # the returned list belongs to the caller: mutating it must not change later answers
+    snapshot_counts = list(counts)
+    try:
+        res.reverse()
+        if res:
+            res.pop()
+        res.append((b"\xfe-intruder", 2**31))
+    except Exception:  # noqa: BLE001  (an immutable return value is fine too)
+        pass
+    again = mon.api(s.query, k, t)
+    mon.check([int(c) for _, c in again] == snapshot_counts and not any(bytes(a) == b"\xfe-intruder" for a, _ in again),
+              "answer-unaffected-by-caller-mutating-an-earlier-result", first=snapshot_counts[:8], again=H.hh_pairs(again)[:8], k=k, threshold=t, cfg=run.cfg)
     mon.count("queries")
     if hit is True:
         mon.count("queries_cache_hit")
